@@ -513,6 +513,166 @@ theorem commit_view {s : St} {root : Hash} {fuel : Nat} {ws : List Hash} (hi : I
   view_transfer (liveLookup s) (diskGet (applyWrites s.cache s.disk ws)) (fun h => h ∈ ws ∨ Has s.disk h)
     (commit_step hi hw)
 
+/-! ## the walk with per-visit iteration orders (`walkO`, `commitV`) -/
+
+theorem sameMembers_mem' {a b : List Hash} (h : sameMembers a b = true) {r : Hash} (hr : r ∈ a) : r ∈ b := by
+  unfold sameMembers at h
+  simp only [Bool.and_eq_true, List.all_eq_true] at h
+  have := h.1.2 r hr
+  simpa using this
+
+theorem pickOrder_mem (h : Hash) (ext : List Hash) (ords : Ords) (x : Hash) :
+    x ∈ (pickOrder h ext ords).1 ↔ x ∈ ext := by
+  cases ords with
+  | nil => simp [pickOrder]
+  | cons ko rest =>
+    obtain ⟨k, o⟩ := ko
+    simp only [pickOrder]
+    split
+    · rename_i hc
+      simp only [Bool.and_eq_true] at hc
+      exact ⟨fun hx => sameMembers_mem' hc.2 hx, fun hx => sameMembers_mem hc.2 hx⟩
+    · exact Iff.rfl
+
+theorem foldKids_all2 {g : Hash → Ords → Option (List Hash × Ords)} {R : Hash → List Hash → Prop}
+    (hg : ∀ x o t o', g x o = some (t, o') → R x t) :
+    ∀ (kids : List Hash) (o : Ords) (ws : List Hash) (o' : Ords), foldKids g kids o = some (ws, o') →
+      ∃ ts, All2 R kids ts ∧ ws = ts.flatten
+  | [], o, ws, o', h => by
+    simp only [foldKids, Option.some.injEq, Prod.mk.injEq] at h
+    exact ⟨[], All2.nil, by simp [h.1.symm]⟩
+  | x :: xs, o, ws, o', h => by
+    simp only [foldKids] at h
+    cases hx : g x o with
+    | none => simp [hx] at h
+    | some r =>
+      obtain ⟨t, o1⟩ := r
+      simp only [hx] at h
+      cases hr : foldKids g xs o1 with
+      | none => simp [hr] at h
+      | some r2 =>
+        obtain ⟨ts, o2⟩ := r2
+        simp only [hr, Option.some.injEq, Prod.mk.injEq] at h
+        obtain ⟨tss, h1, h2⟩ := foldKids_all2 hg xs o1 ts o2 hr
+        exact ⟨t :: tss, All2.cons (hg x o t o1 hx) h1, by simp [← h.1, h2]⟩
+
+/-- whatever orders the runtime picks, what `walkO` returns is a `WalksN` sequence:
+    all crash-point theorems (`any_visit_order_*`) apply to it. -/
+theorem walkO_walksN (c : Cache) : ∀ (f : Nat) (h : Hash) (ords : Ords) (ws : List Hash) (o' : Ords),
+    walkO c f h ords = some (ws, o') → WalksN c f h ws := by
+  intro f
+  induction f with
+  | zero => intro h ords ws o' hw; simp [walkO] at hw
+  | succ f ih =>
+    intro h ords ws o' hw
+    unfold walkO at hw
+    unfold WalksN
+    cases hl : c.lookup h with
+    | none =>
+      simp only [hl, Option.some.injEq, Prod.mk.injEq] at hw
+      simp only
+      exact hw.1.symm
+    | some n =>
+      simp only [hl] at hw ⊢
+      cases hk : foldKids (walkO c f) ((pickOrder h n.ext ords).1 ++ n.inner) (pickOrder h n.ext ords).2 with
+      | none => simp [hk] at hw
+      | some r =>
+        obtain ⟨ts, o2⟩ := r
+        simp only [hk, Option.some.injEq, Prod.mk.injEq] at hw
+        obtain ⟨tss, h1, h2⟩ := foldKids_all2 (R := WalksN c f) (fun x o t o1 hx => ih x o t o1 hx) _ _ _ _ hk
+        exact ⟨(pickOrder h n.ext ords).1, tss, pickOrder_mem h n.ext ords, h1, by rw [← hw.1, h2]⟩
+
+theorem commit_eq_commitWith (s : St) (root : Hash) (failAt : Option Nat) (fuel : Nat) :
+    commit s root failAt fuel = (walk s.cache fuel root).map (commitWith s failAt) := by
+  unfold commit commitWith
+  cases walk s.cache fuel root with
+  | none => rfl
+  | some ws =>
+    cases failAt with
+    | none => rfl
+    | some k => simp only [Option.map_some]; split <;> rfl
+
+/-- the invariant is preserved by the commit of **any** per-visit-order Put sequence,
+    complete or refused at any physical write -/
+theorem commitWith_inv {s : St} {root : Hash} {f : Nat} {ws : List Hash} (failAt : Option Nat) (hi : Inv s)
+    (hw : WalksN s.cache f root ws) : Inv (commitWith s failAt ws).st := by
+  have g := walksN_good s.cache s.disk hi.cacheInv f root ws hw
+  have hflat : (splitBatches s.cache ws [] 0).flatten = ws := by rw [splitBatches_flatten]; simp
+  have facts : ∀ p, p <+: ws → AllRes (applyWrites s.cache s.disk p) ∧ Consistent s.cache (applyWrites s.cache s.disk p) ∧
+      Extends s.disk (applyWrites s.cache s.disk p) := fun p hp =>
+    ⟨writes_allRes ws [] s.disk hi.allRes hi.consistent (fun _ h => h) (by simp) g.cached (g.post []) p hp,
+     (writes_extends p s.disk hi.consistent).2, (writes_extends p s.disk hi.consistent).1⟩
+  have succ : Inv ⟨uncache s.cache ws, applyBatches s.cache s.disk (splitBatches s.cache ws [] 0)⟩ := by
+    rw [applyBatches_eq, hflat]
+    obtain ⟨h1, h2, h3⟩ := facts ws (List.prefix_refl ws)
+    refine ⟨h1, ?_, ?_⟩
+    · intro k n hk r hr
+      rw [uncache_lookup] at hk
+      split at hk
+      · simp at hk
+      · rcases hi.cacheInv k n hk r hr with hd | ⟨hc1, hc2⟩
+        · exact Or.inl (extends_has h3 hd)
+        · by_cases hrw : r ∈ ws
+          · obtain ⟨m, hm⟩ := lookup_of_has hc2
+            exact Or.inl (has_of_lookup (writes_lookup hm ws s.disk (Or.inl hrw)))
+          · right
+            refine ⟨hc1, ?_⟩
+            unfold Has
+            rw [uncache_lookup]
+            have : ws.contains r = false := by simpa using hrw
+            simp only [this, Bool.false_eq_true, if_false]
+            exact hc2
+    · intro k n dn hk hd
+      rw [uncache_lookup] at hk
+      split at hk
+      · simp at hk
+      · exact h2 k n dn hk hd
+  unfold commitWith
+  cases failAt with
+  | none => exact succ
+  | some k =>
+    simp only
+    split
+    · simp only
+      rw [applyBatches_eq]
+      have hp : ((splitBatches s.cache ws [] 0).take k).flatten <+: ws := by
+        have := take_flatten_prefix (splitBatches s.cache ws [] 0) k
+        rwa [hflat] at this
+      obtain ⟨h1, h2, h3⟩ := facts _ hp
+      exact ⟨h1, cacheInv_mono_disk hi.cacheInv (fun r hr => extends_has h3 hr), h2⟩
+    · exact succ
+
+theorem commitWith_extends {s : St} (failAt : Option Nat) (ws : List Hash) (hcs : Consistent s.cache s.disk) :
+    Extends s.disk (commitWith s failAt ws).st.disk := by
+  unfold commitWith
+  cases failAt with
+  | none => simp only; rw [applyBatches_eq]; exact (writes_extends _ _ hcs).1
+  | some k =>
+    simp only
+    split <;> (simp only; rw [applyBatches_eq]; exact (writes_extends _ _ hcs).1)
+
+theorem commitV_inv {s : St} {root : Hash} {failAt : Option Nat} {fuel : Nat} {ords : Ords} {out : CommitOut}
+    (hi : Inv s) (hc : commitV s root failAt fuel ords = some out) : Inv out.st := by
+  unfold commitV at hc
+  cases hw : walkO s.cache fuel root ords with
+  | none => simp [hw] at hc
+  | some r =>
+    obtain ⟨ws, o'⟩ := r
+    simp only [hw, Option.some.injEq] at hc
+    subst hc
+    exact commitWith_inv failAt hi (walkO_walksN s.cache fuel root ords ws o' hw)
+
+theorem commitV_extends {s : St} {root : Hash} {failAt : Option Nat} {fuel : Nat} {ords : Ords} {out : CommitOut}
+    (hcs : Consistent s.cache s.disk) (hc : commitV s root failAt fuel ords = some out) : Extends s.disk out.st.disk := by
+  unfold commitV at hc
+  cases hw : walkO s.cache fuel root ords with
+  | none => simp [hw] at hc
+  | some r =>
+    obtain ⟨ws, o'⟩ := r
+    simp only [hw, Option.some.injEq] at hc
+    subst hc
+    exact commitWith_extends failAt ws hcs
+
 /-- shape of every `commit` result: a prefix of the Put sequence reached the disk;
     the cache is either untouched, or (all Puts written) `uncache`d. -/
 theorem commit_cases {s : St} {root : Hash} {failAt : Option Nat} {fuel : Nat} {out : CommitOut}
@@ -624,6 +784,10 @@ theorem step_inv {eD eC : Hash} {s s' : St} {op : Op} (hi : Inv s) (hok : OpOk e
     simp only [step, Option.map_eq_some_iff] at hs
     obtain ⟨o, ho, rfl⟩ := hs
     exact commit_inv hi ho
+  | commitV root failAt ords =>
+    simp only [step, Option.map_eq_some_iff] at hs
+    obtain ⟨o, ho, rfl⟩ := hs
+    exact commitV_inv hi ho
   | die =>
     simp only [step, Option.some.injEq] at hs
     subst hs
@@ -645,6 +809,10 @@ theorem step_extends {eD eC : Hash} {s s' : St} {op : Op} (hi : Inv s)
     simp only [step, Option.map_eq_some_iff] at hs
     obtain ⟨o, ho, rfl⟩ := hs
     exact commit_extends hi.consistent ho
+  | commitV root failAt ords =>
+    simp only [step, Option.map_eq_some_iff] at hs
+    obtain ⟨o, ho, rfl⟩ := hs
+    exact commitV_extends hi.consistent ho
   | die =>
     simp only [step, Option.some.injEq] at hs
     subst hs; exact extends_refl _
@@ -682,6 +850,7 @@ theorem step_inv_checked {eD eC : Hash} {s s' : St} {op : Op} (hi : Inv s) (hok 
   | ref child parent => exact step_inv (op := .ref child parent) hi trivial hs
   | reorder h ord => exact step_inv (op := .reorder h ord) hi trivial hs
   | commit root failAt => exact step_inv (op := .commit root failAt) hi trivial hs
+  | commitV root failAt ords => exact step_inv (op := .commitV root failAt ords) hi trivial hs
   | die => exact step_inv (op := .die) hi trivial hs
 
 /-- the states a driver run passes through when every `ins`/`insl` was answered `ok` or `dup` -/
